@@ -718,11 +718,13 @@ func (obj *SparseInt64Matrix) JointIterator(b ConstMatrix) MatrixJointIterator {
 }
 func (obj *SparseInt64Matrix) ITERATOR() *SparseInt64MatrixIterator {
   r := SparseInt64MatrixIterator{*obj.values.ITERATOR(), obj}
+  r.skipOutside()
   return &r
 }
 func (obj *SparseInt64Matrix) ITERATOR_FROM(i, j int) *SparseInt64MatrixIterator {
   k := obj.index(i, j)
   r := SparseInt64MatrixIterator{*obj.values.ITERATOR_FROM(k), obj}
+  r.skipOutside()
   return &r
 }
 func (obj *SparseInt64Matrix) JOINT_ITERATOR(b ConstMatrix) *SparseInt64MatrixJointIterator {
@@ -743,6 +745,20 @@ type SparseInt64MatrixIterator struct {
 }
 func (obj *SparseInt64MatrixIterator) Index() (int, int) {
   return obj.m.ij(obj.SparseInt64VectorIterator.Index())
+}
+func (obj *SparseInt64MatrixIterator) Next() {
+  obj.SparseInt64VectorIterator.Next()
+  obj.skipOutside()
+}
+// the underlying vector also holds the entries of the parent matrix that lie
+// outside a sub-matrix view: skip them
+func (obj *SparseInt64MatrixIterator) skipOutside() {
+  for obj.SparseInt64VectorIterator.Ok() {
+    if i, j := obj.Index(); i >= 0 && i < obj.m.rows && j >= 0 && j < obj.m.cols {
+      return
+    }
+    obj.SparseInt64VectorIterator.Next()
+  }
 }
 func (obj *SparseInt64MatrixIterator) Clone() *SparseInt64MatrixIterator {
   return &SparseInt64MatrixIterator{*obj.SparseInt64VectorIterator.Clone(), obj.m}
